@@ -3,98 +3,9 @@
 package local
 
 import (
-	"io/fs"
-
 	vnd "github.com/buildbarn/bb-storage/internal/verifnd"
-	"github.com/buildbarn/bb-storage/pkg/filesystem"
-	"github.com/buildbarn/bb-storage/pkg/filesystem/path"
 	pb "github.com/buildbarn/bb-storage/pkg/proto/blobstore/local"
 )
-
-// verifStateDir records the sequence of directory / file operations issued by
-// directoryBackedPersistentStateStore; every operation fails symbolically.
-type verifStateDir struct {
-	filesystem.Directory
-	log        []string
-	failAt     int // the operation with this ordinal fails (0 = none)
-	ops        int
-	removeKind int // 0 ok, 1 does-not-exist
-	fileOpen   int
-	fileClosed int
-	written    []byte
-}
-
-func (d *verifStateDir) step(name string) bool {
-	d.ops++
-	d.log = append(d.log, name)
-	return d.ops == d.failAt
-}
-
-func (d *verifStateDir) Remove(name path.Component) error {
-	if name.String() != "state.new" {
-		vnd.Unreachable("Remove of a file other than state.new")
-	}
-	if d.step("remove") {
-		return verifErrNoSpace
-	}
-	if d.removeKind == 1 {
-		return fs.ErrNotExist
-	}
-	return nil
-}
-
-func (d *verifStateDir) OpenAppend(name path.Component, mode filesystem.CreationMode) (filesystem.FileAppender, error) {
-	if name.String() != "state.new" {
-		vnd.Unreachable("temporary state file has an unexpected name")
-	}
-	if d.step("open") {
-		return nil, verifErrNoSpace
-	}
-	d.fileOpen++
-	return &verifStateFile{d: d}, nil
-}
-
-func (d *verifStateDir) Rename(oldName path.Component, newDir filesystem.Directory, newName path.Component) error {
-	if oldName.String() != "state.new" || newName.String() != "state" {
-		vnd.Unreachable("rename is not state.new -> state")
-	}
-	if d.step("rename") {
-		return verifErrNoSpace
-	}
-	return nil
-}
-
-func (d *verifStateDir) Sync() error {
-	if d.step("dirsync") {
-		return verifErrNoSpace
-	}
-	return nil
-}
-
-type verifStateFile struct{ d *verifStateDir }
-
-func (f *verifStateFile) Write(p []byte) (int, error) {
-	if f.d.step("write") {
-		return 0, verifErrNoSpace
-	}
-	f.d.written = append(f.d.written, p...)
-	return len(p), nil
-}
-
-func (f *verifStateFile) Sync() error {
-	if f.d.step("fsync") {
-		return verifErrNoSpace
-	}
-	return nil
-}
-
-func (f *verifStateFile) Close() error {
-	f.d.fileClosed++
-	if f.d.step("close") {
-		return verifErrNoSpace
-	}
-	return nil
-}
 
 // Verif_C02_P6_AtomicStateFile: the state file is replaced atomically: the
 // success path is exactly remove(state.new)? create-exclusive, write, fsync,
@@ -140,3 +51,7 @@ func Verif_C02_P6_AtomicStateFile() {
 	vnd.Assert(d.fileClosed == d.fileOpen, "temporary state file not closed exactly once on every path")
 	vnd.Observe("p6", uint64(d.ops), uint64(len(d.written)))
 }
+
+
+// Verif_C02_P6b_StateFileRoundTrip: see verifScenarioStateFileRoundTrip.
+func Verif_C02_P6b_StateFileRoundTrip() { verifScenarioStateFileRoundTrip() }
